@@ -380,6 +380,32 @@ class Check:
                     self.p6_fail = getattr(self, "p6_fail", 0) + 1
                     self.disagree.append(dict(mode="trace", stream="conc/" + profile + "/p6", ops=[tl], impl=[tl], model=[v], first_diff=0))
             self.p6_events = getattr(self, "p6_events", 0) + sum(1 for tl in trace if (" publish" in tl or " post" in tl))
+            # one Publish request = ONE publish turn of the topic actor (what slice P6 assumes): the ids a Publish
+            # was answered with are exactly the ids of one logged publish turn
+            turns = {}
+            for tl in trace:
+                t = tl.split()
+                if len(t) >= 7 and t[1] == "topic" and t[3] == "publish" and t[5] == "->":
+                    ids = [x for x in t[6].split(",") if x and x != "-"]
+                    if ids:
+                        turns[(t[0], ids[0])] = ids
+            case_no = 0
+            flagged = set()
+            for l, a in zip(lines, out):
+                tk = l.split()
+                if tk and tk[0] == "new":
+                    case_no += 1
+                if tk and tk[0] == "pub" and a.startswith("ok ") and case_no not in flagged:
+                    try:
+                        ids = [bytes.fromhex(h).decode() for h in a[3:].strip().split(",") if h and h != "-"]
+                    except ValueError:
+                        continue
+                    if ids and turns.get((str(case_no), ids[0])) != ids:
+                        flagged.add(case_no)
+                        nd += 1
+                        self.p6_fail = getattr(self, "p6_fail", 0) + 1
+                        self.disagree.append(dict(mode="trace", stream="conc/" + profile + "/p6", ops=[l[:300]], impl=[a[:300]],
+                                                  model=["p6:publish-request-is-not-one-publish-turn"], first_diff=0))
         i = 0
         for c in cases:
             n = len(c)
